@@ -30,6 +30,9 @@ pub const PRIMES: [i128; 60] = [2, 3, 5, 7, 11, 13, 17, 19, 23, 29, 31, 37, 41, 
     73, 79, 83, 89, 97, 101, 103, 107, 109, 113, 127, 131, 137, 139, 149, 151, 157, 163, 167, 173,
     179, 181, 191, 193, 197, 199, 211, 223, 227, 229, 233, 239, 241, 251, 257, 263, 269, 271, 277, 281];
 
+/// Angle symbols are numbered from ANGLE0: they only ever occur as arguments of sin/cos (which return ordinary
+/// symbols) and have no TLC encoding - a result that still contains one is inconclusive.
+pub const ANGLE0: u16 = 1000;
 pub type Mono = Vec<(u16, u16)>;
 pub type Poly = BTreeMap<Mono, i128>;
 
@@ -81,7 +84,8 @@ struct Frac { n: Poly, d: Poly }
 thread_local! {
     static ARENA: RefCell<Vec<Frac>> = RefCell::new(Vec::new());
     static NEXT_VAR: RefCell<u16> = RefCell::new(1);
-    static TRIG: RefCell<BTreeMap<u16, (u16, u16)>> = RefCell::new(BTreeMap::new());
+    static TRIG: RefCell<BTreeMap<String, (u16, u16)>> = RefCell::new(BTreeMap::new());
+    static NEXT_ANGLE: RefCell<u16> = RefCell::new(ANGLE0);
     static NAMES: RefCell<BTreeMap<u16, String>> = RefCell::new(BTreeMap::new());
 }
 
@@ -105,6 +109,7 @@ fn get(s: Sym) -> Frac { ARENA.with(|a| a.borrow()[s.0 as usize].clone()) }
 pub fn reset() {
     ARENA.with(|a| a.borrow_mut().clear());
     NEXT_VAR.with(|v| *v.borrow_mut() = 1);
+    NEXT_ANGLE.with(|v| *v.borrow_mut() = ANGLE0);
     TRIG.with(|t| t.borrow_mut().clear());
     NAMES.with(|t| t.borrow_mut().clear());
 }
@@ -120,6 +125,15 @@ impl Sym {
         NAMES.with(|t| t.borrow_mut().insert(k, name.to_string()));
         mk(p_var(k), p_const(1))
     }
+    /// a fresh angle symbol t: only sin/cos of t (and of rational multiples such as t/2) are ring elements
+    pub fn angle() -> Sym {
+        let k = NEXT_ANGLE.with(|v| { let mut v = v.borrow_mut(); let k = *v; *v += 1; k });
+        mk(p_var(k), p_const(1))
+    }
+    fn is_angle_multiple(self) -> bool {
+        let f = get(self);
+        p_is_const(&f.d).is_some() && f.n.len() == 1 && f.n.keys().all(|m| m.len() == 1 && m[0].0 >= ANGLE0 && m[0].1 == 1)
+    }
     fn var_index(self) -> Option<u16> {
         let f = get(self);
         if p_is_const(&f.d) != Some(1) || f.n.len() != 1 { return None; }
@@ -129,7 +143,8 @@ impl Sym {
     /// (cos t, sin t) of a plain variable t as paired fresh symbols; of the constant 0 as (1, 0)
     pub fn cos_sin(self) -> (Sym, Sym) {
         if self.is_zero() { return (Sym::int(1), Sym::int(0)); }
-        let k = match self.var_index() { Some(k) => k, None => inconclusive("sin/cos of a compound symbolic argument") };
+        if !self.is_angle_multiple() { inconclusive("sin/cos of something that is not a rational multiple of an angle symbol") }
+        let k = format!("{:?}", self);
         let known = TRIG.with(|t| t.borrow().get(&k).cloned());
         let (c, s) = match known { Some(p) => p, None => {
             let c = Sym::fresh(&format!("cos#{}", k)).var_index().unwrap();
@@ -149,7 +164,7 @@ impl Sym {
         let mut terms = Vec::new();
         for (m, c) in &f.n {
             let mut g: i128 = 1;
-            for (v, e) in m { for _ in 0..*e { g = g.checked_mul(PRIMES[*v as usize - 1]).unwrap_or(i128::MAX); if g >= (1 << 31) { inconclusive("monomial does not fit TLC's integers") } } }
+            for (v, e) in m { if *v >= ANGLE0 { inconclusive("an angle symbol outside sin/cos") } for _ in 0..*e { g = g.checked_mul(PRIMES[*v as usize - 1]).unwrap_or(i128::MAX); if g >= (1 << 31) { inconclusive("monomial does not fit TLC's integers") } } }
             if c.abs() >= (1 << 30) { inconclusive("coefficient does not fit TLC's integers") }
             terms.push(serde_json::json!([*c as i64, g as i64]));
         }
@@ -254,7 +269,17 @@ impl num_traits::real::Real for Sym {
     fn recip(self) -> Sym { Sym::int(1) / self }
     fn powi(self, n: i32) -> Sym { let mut r = Sym::int(1); for _ in 0..n.abs() { r = r * self; } if n < 0 { Sym::int(1) / r } else { r } }
     fn powf(self, n: Sym) -> Sym { match n.to_i64() { Some(k) if Sym::int(k) == n => self.powi(k as i32), _ => unsup("powf") } }
-    fn sqrt(self) -> Sym { unsup("sqrt of a symbol") }
+    fn sqrt(self) -> Sym {
+        // constants that are squares of rationals (normalising a coordinate axis); anything else has no root in the ring
+        let f = get(self);
+        match (p_is_const(&f.n), p_is_const(&f.d)) {
+            (Some(n), Some(d)) if n >= 0 && d > 0 => {
+                let (rn, rd) = ((n as f64).sqrt().round() as i128, (d as f64).sqrt().round() as i128);
+                if rn * rn == n && rd * rd == d { mk(p_const(rn), p_const(rd)) } else { unsup("sqrt of a non-square constant") }
+            }
+            _ => unsup("sqrt of a symbol"),
+        }
+    }
     fn exp(self) -> Sym { unsup("exp") }
     fn exp2(self) -> Sym { unsup("exp2") }
     fn ln(self) -> Sym { unsup("ln") }
